@@ -1,4 +1,4 @@
-_GOTEST = {"kind": "gotest", "mod": "core", "pkg": "./server", "run": "^TestVerifC07$", "reset_re": "^reset", "timeout": 1500}
+_GOTEST = {"kind": "gotest", "mod": "core", "pkg": "./server", "run": "^TestVerifC07$", "reset_re": "^reset", "timeout": 900}
 
 CFG = {
     "props_module": "Hy.Props.C07",
@@ -9,10 +9,11 @@ CFG = {
         dict(_GOTEST, component="udpsession", driver="udpsession", n={"quick": 8000, "thorough": 200000}),
     ],
     "rule": "histories of 5..40 stimuli on the REAL udpSessionManager inside a testing/synctest bubble (virtual clock, goroutine census), "
-            "fake udpIO/UDPConn/logger/hook logging every environment call under one mutex: datagrams over 6 session ids (complete, "
+            "fake udpIO/UDPConn/logger/hook logging every environment call under one mutex; allow-all policy and no address rewriting "
+            "(policy and override are C08's: CheckUDP calls, cache sizes and policy/override oracles are not part of this check): datagrams over 6 session ids (complete, "
             "fragmented by the real frag.FragUDPMessage then shuffled / truncated / duplicated / with disagreeing addresses, malformed "
             "fragment numbers), remote replies (send ok / error / blocked and later released / refused as too large and re-fragmented), "
-            "injected read errors, dial / hook / write errors, time advances across the idle timeout and the 1 s sweep (including exact "
+            "injected read errors, dial / hook / write errors, a dial still in flight across the sweep (slowdial), an id re-used while the sweeper is inside Close() of the expired entry (slowclose), time advances across the idle timeout and the 1 s sweep (including exact "
             "equality), the receive loop's lookup separated from its Feed by sweeps and errors (stale-pointer feed), connection loss early "
             "and at the end. Each stimulus = the model's atomic steps for it; map iteration orders are read from the implementation. "
             "distinct = distinct op line; non-trivial = the stimulus made the code call its environment",
@@ -37,7 +38,7 @@ CFG = {
 }
 
 MANIFEST = {
-    "text": "Proof: 28 Lean theorems (18 properties, 2 constant and 8 source-skeleton obligations) over a model of udpSessionManager as goroutine programs (receive loop, one reply loop per session, "
+    "text": "Proof: 29 Lean theorems (18 properties, 2 constant and 9 source-skeleton obligations) over a model of udpSessionManager as goroutine programs (receive loop, one reply loop per session, "
             "sweeper, the two halves of CloseWithErr, environment) with `forall sched : List Label`: a socket is written only with datagrams of "
             "the session that opened it and its packets go upstream tagged with that id (isolation, io_only_on_opened); the table is a function "
             "and the exit function deletes its own entry, never a newer one with the same id (table_functional, exit_deletes_own); Close() is "
